@@ -48,6 +48,8 @@ fn spellings() -> Vec<Spelling> {
         "NOT", "END", "STOP", "FOR", "TO", "STEP", "NEXT", "READ", "RESTORE", "DEF", "?", ":", ";",
         ",", "(", ")", "+", "-", "*", "/", "^", "=", "<>", "<=", ">=", "<", ">", "X", "X1", "A$",
         "SCORE", "TOTAL", "FNA", "7", "12", "1.5", ".5", "007", "E3", "1E3",
+        // the letters no keyword and no other name of this table contains
+        "JKQVWYZ",
     ];
     let mut v: Vec<Spelling> = plain.iter().map(|s| sp(s)).collect();
     v.push(sp("[\"a B\"]"));
